@@ -169,9 +169,9 @@ func TestCheck(t *testing.T) {
 			pschedules(r)
 			return
 		}
-		r.Explore(mc.Config{Name: "full", Bound: -1, Prune: true}, program(r, mc.Pick(r, 3, 4), true))
-		r.Explore(mc.Config{Name: "dev", Bound: mc.Pick(r, 3, 4), Prune: true}, program(r, mc.Pick(r, 7, 9), true))
-		r.Extra["rule"] = "histories of (advance by one of 13 durations around the 24 h / 48 h / 72 h thresholds, then Current or not), every identifier ever issued plus four never issued looked up after every step; all histories of 3 (4) steps, all histories of 7 (9) steps within 3 (4) deviations from hourly Current calls; canonical-state pruning on (id distance, age, time since last issue) of the live keys"
+		r.Explore(mc.Config{Name: "full", Bound: -1, Prune: true}, program(r, mc.Pick(r, 4, 4), true))
+		r.Explore(mc.Config{Name: "dev", Bound: mc.Pick(r, 4, 5), Prune: true}, program(r, mc.Pick(r, 9, 11), true))
+		r.Extra["rule"] = "histories of (advance by one of 13 durations around the 24 h / 48 h / 72 h thresholds, then Current or not), every identifier ever issued plus four never issued looked up after every step; all histories of 4 steps, all histories of 9 (11) steps within 4 (5) deviations from hourly Current calls; canonical-state pruning on (id distance, age, time since last issue) of the live keys"
 	})
 }
 
